@@ -292,3 +292,83 @@ def hash_structure(prevs: list[str], hashes: list[str]) -> list[int]:
         else:
             out.append(-2)
     return out
+
+
+# ------------------------------------------------------------------ probes (C05, C06)
+class ProbedEngine:
+    """an engine with (a) a catch-all probe dispatcher installed through the public
+    EngineBuilder.add_dispatcher extension point, recording every action the router dispatches, (b) the
+    router's class swapped for a subclass that tracks the nesting depth of router calls (addons re-enter the
+    router while an action is being handled) and the clock entity around every top-level call, and (c)
+    play boundaries marked by wrapping `play` as imported by simaple.simulate.engine."""
+
+    def __init__(self, job: str, variant: int = 0):
+        import copy
+        import simaple.simulate.engine as engine_mod
+        from simaple.container.simulation import get_skill_components
+        from simaple.simulate.base import RouterDispatcher, play as real_play
+        from simaple.simulate.kms import get_builder
+
+        key = (job, variant, canon({}))
+        if key not in _SKILL_CACHE:
+            env = make_env(job, variant)
+            _SKILL_CACHE[key] = (get_skill_components(env), env.character.action_stat)
+        skills, action_stat = _SKILL_CACHE[key]
+        owner = self
+        self.plays: list[dict] = []        # one per play: {"action", "queue": [...], "router": [...], "events"}
+        self.current: Optional[dict] = None
+
+        class Probe:
+            def __call__(self, action, store):
+                if owner.current is not None:
+                    owner.current["all"].append((owner.depth, copy.deepcopy(dict(action))))
+                return []
+
+            def includes(self, signature):
+                return True
+
+            def init_store(self, store):
+                return
+
+        class RecordingRouter(RouterDispatcher):
+            def __call__(self, action, store):
+                top = owner.depth == 0
+                if top and owner.current is not None:
+                    before = store.read_entity("global.time", None).current_time
+                owner.depth += 1
+                try:
+                    events = RouterDispatcher.__call__(self, action, store)
+                finally:
+                    owner.depth -= 1
+                if top and owner.current is not None:
+                    after = store.read_entity("global.time", None).current_time
+                    owner.current["router"].append({"action": copy.deepcopy(dict(action)), "clock_before": before,
+                                                    "clock_after": after, "events": copy.deepcopy(events)})
+                return events
+
+        self.depth = 0
+        builder = get_builder(copy.deepcopy(skills), action_stat.model_copy())
+        builder.add_dispatcher(Probe())
+        builder._router.__class__ = RecordingRouter
+        self.engine = builder.build_operation_engine()
+        self.dispatchers = builder._router._dispatchers
+
+        def wrapped_play(store, action, router):
+            if router is not self.engine._router:
+                return real_play(store, action, router)
+            self.current = {"action": copy.deepcopy(dict(action)), "all": [], "router": []}
+            try:
+                res = real_play(store, action, router)
+            finally:
+                cur, self.current = self.current, None
+            cur["events"] = copy.deepcopy(res[1])
+            cur["queue"] = [a for d, a in cur["all"] if d == 1]
+            self.plays.append(cur)
+            return res
+
+        self._engine_mod = engine_mod
+        self._orig_play = engine_mod.play
+        engine_mod.play = wrapped_play
+
+    def close(self):
+        self._engine_mod.play = self._orig_play
